@@ -14,12 +14,14 @@ from collections import defaultdict
 from typing import Iterator, List, Set, Optional
 
 import os
+import re
 import glob
 
 from spil import Sid
 from spil import conf
 from spil.sid.pathops.pathconfig import get_path_config
 from spil.sid.read.finders.find_glob import FindByGlob
+from spil.sid.read.finders.find_list import glob2re
 from spil.util.exception import SpilException
 from spil.util.log import warn, debug, error
 
@@ -121,6 +123,11 @@ class FindInPaths(FindByGlob):
             else:
                 searched[search.type].append(pattern)
 
+            # The glob pattern of a file name can match more than the search:
+            # a value may contain the separator used between the fields of the file name.
+            # Found Sids are checked against the search itself, as in a list search.
+            search_regex = re.compile(glob2re(str(search)))
+
             debug(f"Now searching pattern: {pattern}")
             found = glob.glob(pattern)
             debug("found")
@@ -144,6 +151,9 @@ class FindInPaths(FindByGlob):
                     continue
                 if not sid:
                     debug(f"Path did not generate sid: {path}")
+                    continue
+                if not search_regex.match(str(sid)):
+                    debug(f"Found Sid does not match the search: {sid} -- Search: {search}")
                     continue
 
                 found_paths.add(path)
